@@ -6,19 +6,25 @@ import SshuttleModel.Lemmas.ClientMainOrder
 namespace Sshuttle.ClientMain
 open Sshuttle.ClientTrace
 
-/-- The liveness call of an iteration in which ssh is reported dead: it is made, and raises. -/
+/-- The liveness call of an iteration in which ssh is reported dead: it is made, and raises; the
+only further trace entry is the model's `sshDead` marker (absent when the call itself was faulted). -/
 theorem checkAlive_dead (sc : Script) (s : Step) (h : s.alive.isSome) (w : World) :
-    ∃ x w', checkAlive sc (some s) w = (.error x, w') ∧
-      w'.trace = w.trace ++ [if sc.cfg.daemon then Ev.kill else Ev.poll] := by
+    ∃ x w' l, checkAlive sc (some s) w = (.error x, w') ∧
+      w'.trace = w.trace ++ (if sc.cfg.daemon then Ev.kill else Ev.poll) :: l ∧
+      (l = [] ∨ l = [Ev.sshDead]) := by
   obtain ⟨rv, hrv⟩ := Option.isSome_iff_exists.1 h
   unfold checkAlive
   cases hd : sc.cfg.daemon <;>
-    simp only [mapExc, bind_apply, act, modifyW, raise, hrv, Bool.false_eq_true, ↓reduceIte] <;>
-    cases sc.faults w.calls <;> simp only [push, deliver] <;> exact ⟨_, _, rfl, rfl⟩
+    simp only [mapExc, bind_apply, act, mark, modifyW, raise, hrv, Bool.false_eq_true, ↓reduceIte] <;>
+    cases sc.faults w.calls <;> simp only [push, deliver]
+  · exact ⟨_, _, [Ev.sshDead], rfl, by simp, Or.inr rfl⟩
+  · exact ⟨_, _, [], rfl, by simp, Or.inl rfl⟩
+  · exact ⟨_, _, [Ev.sshDead], rfl, by simp, Or.inr rfl⟩
+  · exact ⟨_, _, [], rfl, by simp, Or.inl rfl⟩
 
 theorem mainLoop_dead (sc : Script) (i : Nat) (s : Step) (rest : List Step) (h : s.alive.isSome)
     (w : World) : mainLoop sc i (s :: rest) w = checkAlive sc (some s) w := by
-  obtain ⟨x, w', hc, _⟩ := checkAlive_dead sc s h w
+  obtain ⟨x, w', l, hc, _⟩ := checkAlive_dead sc s h w
   unfold mainLoop
   simp only [bind_apply, hc]
 
@@ -88,7 +94,7 @@ theorem only_startupChecks (sc : Script) (t0 : List Ev) : Pres (Only t0) (startu
     exact only_readExactly sc t0 _ _ _
   refine Pres.bind (Pres.act (Only.step (Or.inr (Or.inr rfl)))) fun _ => ?_
   refine Pres.bind (Pres.ite (Pres.raise _) (Pres.pure _)) fun _ => ?_
-  exact Pres.ite (Pres.raise _) (Pres.pure _)
+  exact Pres.bind (Pres.ite (Pres.raise _) (Pres.pure _)) fun _ => Pres.pure _
 
 theorem Triple.trivial {α} (m : M α) :
     Triple (fun _ => True) m (fun _ _ => True) (fun _ => True) := by
